@@ -166,6 +166,23 @@ def judge(t):
                 if d not in held and d not in supplied_b and d not in F:
                     F.add(d)
                     t.world.probe('failure-known-from-ground-truth-only')
+    # ground truth: a module that was looked up and of which every copy any source holds is broken in a way that stops
+    # parsing or symbol-table building cannot have been loaded - whatever the parser made of the text
+    UNLOADABLE = ('lex', 'lexpct', 'syntax', 'forbidden', 'cut', 'cutmacro', 'empty', 'dupsym', 'dupsymfwd', 'unkparent')
+    looked_up = set(c.mib for c in t.by('src.getData')) | set(scn.get('requested', ()))
+    if not scn.get('alias') and not scn.get('second') and t.second is None:
+        for n_ in sorted(looked_up):
+            sp = scn.get('modules', {}).get(n_)
+            if sp is None or n_ in supplied_b or n_ in F:
+                continue
+            if any(n_ in ms and f_ != n_ for f_, ms in scn.get('files', {}).items()):
+                continue        # may also arrive inside another module's file
+            copies = [h_ for s_ in scn.get('sources', ()) for k_, h_ in s_.get('holds', {}).items() if k_ == n_ and h_.get('o', 'ok') == 'ok' and 'text' not in h_]
+            # (in a file that also holds other modules an 'empty' copy just means the module is not in that file)
+            bad_ = tuple(v_ for v_ in UNLOADABLE if not (v_ == 'empty' and len(scn.get('files', {}).get(n_, ())) > 1))
+            if copies and all(((h_.get('variants') or {}).get(n_) or sp.get('variant', 'ok')) in bad_ for h_ in copies):
+                F.add(n_)
+                t.world.probe('failure-known-from-ground-truth-only')
     if 'NO-SUCH-MIB' in scn.get('requested', ()) and not any(c.mib == 'NO-SUCH-MIB' and c.ok for c in t.by('borrower.getData')):
         F.add('NO-SUCH-MIB')
     if not scn.get('sources'):
